@@ -125,6 +125,16 @@ TEXT = {
         "note": COMMON_NOTE + " sync.RWMutex semantics are assumed; fairness is not modelled; preemption is explored at the yield points only.",
         "technique": "Lean 4 proof (one-lock linearizability theorem by invariant over schedules); exhaustive interleaving replay of the real RPCs against the machine",
     },
+    "C07": {
+        "level": "Theorems: the one-lock machine theorem instantiated with the sequential GCS Model (any number of requests on one object, any interleaving: state = serial run in critical-section "
+                 "order, each request once); on that Model, of N writers conditioned on the same generation or on non-existence exactly the first in any serial order succeeds; a "
+                 "metageneration-conditioned patch applies only to a state it matched and a refused one changes nothing; a read returns one stored record. Tied to the code by running 2-3 real "
+                 "concurrent HTTP requests (upload, patch, delete, compose, copy, metadata and media GETs, with generation / must-not-exist / metageneration conditions) on overlapping names through "
+                 "every interleaving of the repository's yield points on both stores; each run must be explained by the Lean Model under some serial order compatible with real time (first "
+                 "candidate: the order of lock releases). A tear scenario parks a file-store writer between its content write and its sidecar write while readers run.",
+        "note": COMMON_NOTE + " Mutex / channel semantics of the Go runtime are assumed; fairness is not modelled; preemption is explored at the yield points only.",
+        "technique": "Lean 4 proof (one-lock linearizability theorem + exactly-one-winner lemmas on the sequential Model); exhaustive interleaving replay of real HTTP handlers with serial-order search through the Model",
+    },
 }
 
 NOT_APPLICABLE = {("C%02d" % i): "check not built yet in this session (work in progress; see DESIGN.md section 8)" for i in range(1, 21)}
